@@ -35,7 +35,9 @@ func TestHand(t *testing.T) {
 		fmt.Println(o.String())
 	}
 	if op == "build" {
-		var b struct{ Wat string `json:"wat"` }
+		var b struct {
+			Wat string `json:"wat"`
+		}
 		o.Decode(&b)
 		os.WriteFile(path+".wat", []byte(b.Wat), 0o644)
 		return
